@@ -1393,6 +1393,12 @@ where
     #[inline(always)]
     fn skip_number_unsafe(&mut self) -> Result<()> {
         let _ = self.get_next_token([b']', b'}', b','], 0);
+        // the number ends before the whitespace that precedes the next token (or the end)
+        while self.read.index() > 0
+            && matches!(self.read.at(self.read.index() - 1), b' ' | b'\n' | b'\r' | b'\t')
+        {
+            self.read.backward(1);
+        }
         Ok(())
     }
 
